@@ -3,11 +3,16 @@
 package main
 
 import (
+	"bytes"
 	"context"
+	"crypto/sha1"
+	"encoding/hex"
+	"encoding/json"
 	"errors"
 	"fmt"
 	"math"
 	"os"
+	osexec "os/exec"
 	"path/filepath"
 	"reflect"
 	"sort"
@@ -36,6 +41,10 @@ func main() {
 		extract(os.Args[2], os.Args[3])
 	case "corr":
 		corr.Main(spec(), os.Args[2:])
+	case "shapes":
+		printShapes(os.Args[2])
+	case "runscript":
+		runScriptChild()
 	default:
 		os.Exit(2)
 	}
@@ -52,6 +61,135 @@ func all(bs ...bool) bool {
 	return true
 }
 
+// Whole-body shape facts (see cmd/c14): every function the model is written against is pinned by the hash of its
+// canonical text (gofacts.Canon). `c15 shapes <repo>` prints the table for a tree.
+type fnRef struct{ file, recv, name string }
+
+func (r fnRef) key() string { return r.file + "|" + r.recv + "." + r.name }
+
+var shapeFiles = map[string]*gofacts.File{}
+
+func fileOf(repo, rel string) *gofacts.File {
+	f := shapeFiles[repo+"|"+rel]
+	if f == nil {
+		f = gofacts.MustLoad(repo, rel)
+		shapeFiles[repo+"|"+rel] = f
+	}
+	return f
+}
+
+func hashText(t string) string {
+	sum := sha1.Sum([]byte(t))
+	return hex.EncodeToString(sum[:])[:12]
+}
+
+func shapeOf(repo string, r fnRef) string {
+	f := fileOf(repo, r.file)
+	fd := f.Func(r.recv, r.name)
+	if fd == nil {
+		return "absent"
+	}
+	return hashText(f.Canon(fd))
+}
+
+func refs(file string, names ...string) []fnRef {
+	var out []fnRef
+	for _, n := range names {
+		recv, name := "", n
+		if i := strings.Index(n, "."); i >= 0 {
+			recv, name = n[:i], n[i+1:]
+		}
+		out = append(out, fnRef{file, recv, name})
+	}
+	return out
+}
+
+func cat(ls ...[]fnRef) []fnRef {
+	var out []fnRef
+	for _, l := range ls {
+		out = append(out, l...)
+	}
+	return out
+}
+
+const (
+	fWorker, fGroup, fGas = "syncx/pipe/mux/worker.go", "syncx/pipe/mux/wgroup.go", "syncx/pipe/mux/gas.go"
+	fFacade, fMQ, fOpt    = "syncx/pipe/mux/cacheex.go", "syncx/pipe/mux/q.go", "syncx/pipe/mux/opt.go"
+	fMap, fLRU            = "cache/map.go", "cache/lru.go"
+)
+
+var doNames = []string{"DoGet", "DoAdd", "DoUpdate", "DoDelete", "DoUpdOrAddIfNull", "DoUpsertThenLoad", "DoUpsertThenRenewInCache"}
+
+func prefixed(pfx string, names []string) []string {
+	var out []string
+	for _, n := range names {
+		out = append(out, pfx+n)
+	}
+	return out
+}
+
+// groups of pinned functions, one Lean fact each (order = field order of Nv.C15.Facts)
+var factGroups = []struct {
+	name string
+	fns  []fnRef
+}{
+	{"handlers", refs(fWorker, "Worker.handleAsync", "Worker.handleLoad", "Worker.handleAdd", "Worker.handleUpdate", "Worker.handleMixUpdOrAddIfNull",
+		"Worker.handleMixUpsertThenLoad", "Worker.handleMixUpsertThenRenewInCache")},
+	{"workerApi", cat(refs(fWorker, append(prefixed("Worker.", doNames), "NewWorker", "Worker.Stop", "Worker.asyncCall", "Worker.runLoop")...),
+		refs(fGas, "NewAsync", "AsyncC.SetR", "AsyncC.R", "NewLoad", "NewAdd", "NewUpdate", "NewDelete", "NewMixUpdOrAddIfNull", "NewMixUpsertThenLoad", "NewMixUpsertThenRenewInCache"))},
+	{"groupRouting", cat(refs(fGroup, append(prefixed("WorkerGrp.", doNames), "NewWorkGrp", "NewWorkGrpWithMapCache", "NewWorkGrpWithLRU", "buildWorkGrp",
+		"WorkerGrp.Start", "WorkerGrp.Stop", "WorkerGrp.stop", "WorkerGrp.signalExit", "WorkerGrp.WaitStop", "WorkerGrp.MuxSize", "WorkerGrp.DeepSize")...),
+		refs(fOpt, "WithSize", "WithDeep"))},
+	{"facadeShape", refs(fFacade, "NewFacadeMap", "FacadeMap.Peek", "_wrapper.Size", "NewFacadeLRU", "FacadeLRU.Peek", "FacadeLRU.Get", "FacadeLRU.Set", "FacadeLRU.Delete")},
+	{"queueBodies", refs(fMQ, "NewQ", "Q.AddReqAnyway", "Q.AddReq", "Q.AddPriorReq", "Q.Pop", "Q.PopAnyway", "Q.Close", "Q.WaitClose", "Q.IsClosed")},
+	{"cacheBodies", cat(refs(fMap, "NewMap", "Map.Init", "Map.Set", "Map.Get", "Map.Exist", "Map.Delete"),
+		refs(fLRU, "NewLRUCache", "LRUCache.Init", "LRUCache.Get", "LRUCache.Peek", "LRUCache.Set", "LRUCache.Delete", "LRUCache.updateInPlace", "LRUCache.addNew", "LRUCache.checkCapacity"))},
+}
+
+// configuration-selecting functions: shape -> value (alternate shapes are hashed from their canonical source text below)
+var cfgShapes = map[string]map[string]string{}
+
+func init() {
+	alt := func(src string) string {
+		t, err := gofacts.CanonText(src)
+		if err != nil {
+			panic(err)
+		}
+		return hashText(t)
+	}
+	cfgShapes[fWorker+"|Worker.handleDelete"] = map[string]string{
+		alt(`func (w *Worker) handleDelete(c *AsyncC, op *OpDelete) { var err = op.deleteFn(c.ctx, op.k); if err != nil { c.SetR(nil, err); return }; w.ca.Delete(op.k); c.SetR(nil, nil) }`): "storeFirst",
+		alt(`func (w *Worker) handleDelete(c *AsyncC, op *OpDelete) { w.ca.Delete(op.k); var err = op.deleteFn(c.ctx, op.k); if err != nil { c.SetR(nil, err); return }; c.SetR(nil, nil) }`): "cacheFirst",
+		alt(`func (w *Worker) handleDelete(c *AsyncC, op *OpDelete) { var err = op.deleteFn(c.ctx, op.k); if err != nil { c.SetR(nil, err); return }; c.SetR(nil, nil) }`):                    "noDelete",
+	}
+	cfgShapes[fWorker+"|Worker.Start"] = map[string]string{
+		alt(`func (w *Worker) Start() { go w.runLoop() }`):                            "unguarded",
+		alt(`func (w *Worker) Start() { w.startOnce.Do(func() { go w.runLoop() }) }`): "once",
+	}
+}
+
+// lock coverage: state-touching methods of mux.Q, cache.Map and cache.LRUCache
+var locked = []struct {
+	r            fnRef
+	lock, unlock string
+}{
+	{fnRef{fMQ, "Q", "AddReq"}, "a.lock.Lock()", "a.lock.Unlock()"}, {fnRef{fMQ, "Q", "AddPriorReq"}, "a.lock.Lock()", "a.lock.Unlock()"},
+	{fnRef{fMQ, "Q", "Pop"}, "a.lock.Lock()", "a.lock.Unlock()"}, {fnRef{fMQ, "Q", "PopAnyway"}, "a.lock.Lock()", "a.lock.Unlock()"},
+	{fnRef{fMQ, "Q", "Close"}, "a.lock.Lock()", "a.lock.Unlock()"}, {fnRef{fMQ, "Q", "IsClosed"}, "a.lock.Lock()", "a.lock.Unlock()"},
+	{fnRef{fMap, "Map", "Set"}, "m.lock.Lock()", "m.lock.Unlock()"}, {fnRef{fMap, "Map", "Delete"}, "m.lock.Lock()", "m.lock.Unlock()"},
+	{fnRef{fMap, "Map", "Get"}, "m.lock.RLock()", "m.lock.RUnlock()"}, {fnRef{fMap, "Map", "Exist"}, "m.lock.RLock()", "m.lock.RUnlock()"},
+	{fnRef{fLRU, "LRUCache", "Get"}, "lru.mu.Lock()", "lru.mu.Unlock()"}, {fnRef{fLRU, "LRUCache", "Peek"}, "lru.mu.Lock()", "lru.mu.Unlock()"},
+	{fnRef{fLRU, "LRUCache", "Set"}, "lru.mu.Lock()", "lru.mu.Unlock()"}, {fnRef{fLRU, "LRUCache", "Delete"}, "lru.mu.Lock()", "lru.mu.Unlock()"},
+}
+
+func printShapes(repo string) {
+	for _, g := range factGroups {
+		for _, r := range g.fns {
+			fmt.Printf("\t%q: %q,\n", r.key(), shapeOf(repo, r))
+		}
+	}
+}
+
 func extract(repo, leanDir string) {
 	p, err := go2lean.LoadPkg(repo, "syncx/pipe/mux")
 	if err != nil {
@@ -59,100 +197,79 @@ func extract(repo, leanDir string) {
 		os.Exit(2)
 	}
 	kernel, kmsg := "", "translated"
-	if errs := p.TranslateAll("WorkerGrp.locHash"); len(errs) > 0 {
+	if errs := p.TranslateAll("Int.HashedInt", "WorkerGrp.locHash"); len(errs) > 0 {
 		kmsg = "UNTRANSLATABLE " + strings.Join(go2lean.SortedErrs(errs), "; ")
-		kernel = "-- WorkerGrp.locHash left the translatable subset: " + strings.ReplaceAll(kmsg, "\n", " ") + "\n"
+		kernel = "-- locHash / Int.HashedInt left the translatable subset: " + strings.ReplaceAll(kmsg, "\n", " ") + "\n"
 	} else {
-		ks := p.Kernels()
-		k := ks[len(ks)-1]
-		if len(ks) == 1 && k.Lean == "workerGrp_locHash" && len(k.Params) == 0 && len(k.Globals) == 0 && len(k.Fields) == 1 && k.Fields[0].Go == "w.muxSize" &&
-			len(k.Exts) == 1 && k.Exts[0].Go == "k.HashedInt()" && len(k.WFields) == 0 {
-			kernel = p.Emit() + "/-- (muxSize, k.HashedInt()) ↦ worker index -/\ndef loc : Nv.C15.Loc := fun n h => workerGrp_locHash n h\n"
+		var hk, lk *go2lean.Kernel
+		for _, k := range p.Kernels() {
+			switch k.Lean {
+			case "int_hashedInt":
+				hk = k
+			case "workerGrp_locHash":
+				lk = k
+			}
+		}
+		// the key type's hash: a value receiver of integer type is the kernel's only input
+		hf := fileOf(repo, "syncx/pipe/mux/hasher.go").Func("Int", "HashedInt")
+		recv := ""
+		if hf != nil && hf.Recv != nil && len(hf.Recv.List) == 1 && len(hf.Recv.List[0].Names) == 1 {
+			recv = hf.Recv.List[0].Names[0].Name
+		}
+		okShape := hk != nil && lk != nil && recv != "" && len(hk.Params)+len(hk.Fields)+len(hk.Globals)+len(hk.Exts) == 0 &&
+			len(lk.Params) == 0 && len(lk.Globals) == 0 && len(lk.Fields) == 1 && lk.Fields[0].Go == "w.muxSize" &&
+			len(lk.Exts) == 1 && lk.Exts[0].Go == "k.HashedInt()" && len(lk.WFields) == 0
+		if okShape {
+			emitted := strings.Replace(p.Emit(), "def int_hashedInt : BitVec 64 :=", "def int_hashedInt ("+recv+" : BitVec 64) : BitVec 64 :=", 1)
+			kernel = emitted + "/-- (muxSize, key) ↦ worker index: `locHash` applied to `Int(key).HashedInt()` -/\n" +
+				"def loc : Nv.C15.Loc := fun n h => workerGrp_locHash n (int_hashedInt h)\n"
 		} else {
 			kmsg = "UNEXPECTED-SIGNATURE"
-			kernel = "-- WorkerGrp.locHash: unexpected inputs after translation (expected w.muxSize and k.HashedInt() only)\n"
+			kernel = "-- locHash / Int.HashedInt: unexpected inputs after translation\n"
 		}
 	}
 
-	wk := gofacts.MustLoad(repo, "syncx/pipe/mux/worker.go")
-	wg := gofacts.MustLoad(repo, "syncx/pipe/mux/wgroup.go")
-	mq := gofacts.MustLoad(repo, "syncx/pipe/mux/q.go")
-	gas := gofacts.MustLoad(repo, "syncx/pipe/mux/gas.go")
-	sets := func(body string) int { return strings.Count(body, "w.ca.Set(") }
-	chk := " if err != nil { c.SetR(nil, err) return } "
-	setv := "w.ca.Set(op.k, v) c.SetR(v, nil)"
-
-	bl := wk.Body("Worker", "handleLoad")
-	loadOK := sets(bl) == 1 && gofacts.Has(bl, "{ var v, ok = w.ca.Get(op.k) if ok { c.SetR(v, nil) return } var err error v, err = op.loadFn(c.ctx, op.k)"+chk+setv+" }")
-	ba := wk.Body("Worker", "handleAdd")
-	addPeek := gofacts.Has(ba, "{ var _, exist = w.ca.Peek(op.k) if exist { c.SetR(nil, ErrDupKey) return }") &&
-		gofacts.Before(ba, "if exist { c.SetR(nil, ErrDupKey) return }", "op.addFn(")
-	addOK := sets(ba) == 1 && gofacts.Has(ba, "var v, err = op.addFn(c.ctx, op.data)"+chk+setv+" }")
-	preUpd := "var pre, ok = w.ca.Peek(op.k) if ok { var v, err = op.updFn(c.ctx, op.data, pre)" + chk + setv + " return }"
-	bu := wk.Body("Worker", "handleUpdate")
-	updOK := sets(bu) == 2 && gofacts.Has(bu, "{ "+preUpd+" var v, err = op.loadFn(c.ctx, op.k)"+chk+"v, err = op.updFn(c.ctx, op.data, v)"+chk+setv+" }")
-	bo := wk.Body("Worker", "handleMixUpdOrAddIfNull")
-	uoaOK := sets(bo) == 3 && gofacts.Has(bo, "{ "+preUpd+" var v, err = op.loadFn(c.ctx, op.k) if err != nil { if !op.isNotFoundFn(err) { c.SetR(nil, err) return } v, err = op.addFn(c.ctx, op.data)"+chk+setv+" return } v, err = op.updFn(c.ctx, op.data, v)"+chk+setv+" }")
-	preUps := "var pre, ok = w.ca.Peek(op.k) if ok { var v, err = op.upsertFn(c.ctx, op.data, pre)" + chk + setv + " return }"
-	bt := wk.Body("Worker", "handleMixUpsertThenLoad")
-	utlOK := sets(bt) == 2 && gofacts.Has(bt, "{ "+preUps+" var _, err = op.upsertFn(c.ctx, op.data, nil)"+chk+"var v interface{} v, err = op.loadFn(c.ctx, op.k)"+chk+setv+" }")
-	br := wk.Body("Worker", "handleMixUpsertThenRenewInCache")
-	utrOK := sets(br) == 1 && gofacts.Has(br, "{ "+preUps+" var v, err = op.upsertFn(c.ctx, op.data, nil)"+chk+"c.SetR(v, nil) }")
-	fast := gofacts.Has(wk.Body("Worker", "DoGet"), "{ var v, ok = w.ca.Get(k) if ok { return v, nil } return w.asyncCall(ctx, NewLoad(loadFn, k)) }")
-	ha := wk.Body("Worker", "handleAsync")
-	consumer := all(gofacts.Has(wk.Body("Worker", "Start"), "{ go w.runLoop() }"),
-		gofacts.Has(wk.Body("Worker", "runLoop"), "for { e, err = w.workQ.PopAnyway() if err != nil {"),
-		gofacts.Has(wk.Body("Worker", "runLoop"), "c = e.(*AsyncC) w.handleAsync(c) }"),
-		gofacts.Has(wk.Body("Worker", "asyncCall"), "{ var c = NewAsync(ctx, op) var err = w.workQ.AddReq(c) if err != nil { return nil, err } return c.R() }"),
-		gofacts.Has(wg.Body("WorkerGrp", "Start"), "{ for i := 0; i < w.muxSize; i++ { w.ws[i].Start() } }"),
-		gofacts.Has(ha, "case *OpLoad: w.handleLoad(c, op) case *OpAdd: w.handleAdd(c, op) case *OpUpdate: w.handleUpdate(c, op) case *OpDelete: w.handleDelete(c, op) case *OpMixUpdOrAddIfNull: w.handleMixUpdOrAddIfNull(c, op) case *OpMixUpsertThenLoad: w.handleMixUpsertThenLoad(c, op) case *OpMixUpsertThenRenewInCache: w.handleMixUpsertThenRenewInCache(c, op)"),
-		gofacts.Has(gas.Body("", "NewAsync"), "rChan: make(chan R, 1)"),
-		gofacts.Has(gas.Body("AsyncC", "R"), "{ select { case <-a.ctx.Done(): return nil, a.ctx.Err() case re := <-a.rChan: return re.r, re.err } }"))
-	route := true
-	for _, m := range []string{"DoGet", "DoAdd", "DoUpdate", "DoDelete", "DoUpdOrAddIfNull", "DoUpsertThenLoad", "DoUpsertThenRenewInCache"} {
-		b := wg.Body("WorkerGrp", m)
-		route = route && strings.HasPrefix(b, "{ return w.ws[w.locHash(k)]."+m+"(ctx, ") && strings.Count(b, "locHash") == 1
+	var fs, changed []string
+	for _, g := range factGroups {
+		ok := true
+		for _, r := range g.fns {
+			if shapeOf(repo, r) != expectedShapes[r.key()] {
+				ok = false
+				changed = append(changed, r.key())
+			}
+		}
+		fs = append(fs, gofacts.LeanBool(ok))
 	}
-	fifo := all(gofacts.Has(mq.Body("Q", "AddReq"), "{ a.lock.Lock() defer a.lock.Unlock() if a.closed { return ErrClosed } if a.reqMaxNum > 0 { if a.reqList.Len() >= a.reqMaxNum { return ErrQFull } } a.reqList.PushBack(req) a.cond.Broadcast() return nil }"),
-		gofacts.Has(mq.Body("Q", "PopAnyway"), "{ a.lock.Lock() defer a.lock.Unlock() for a.reqList.Len() == 0 { if a.closed { return nil, ErrClosed } a.cond.Wait() } var front = a.reqList.Front() if front != nil { a.reqList.Remove(front) return front.Value, nil } return nil, ErrSync }"))
-
-	cx := gofacts.MustLoad(repo, "syncx/pipe/mux/cacheex.go")
-	eq := func(recv, fn, want string) bool { return gofacts.Norm(cx.Body(recv, fn)) == gofacts.Norm(want) }
-	facade := all(eq("", "NewFacadeMap", "{ var m = &FacadeMap{} m.Init() return m }"),
-		eq("FacadeMap", "Peek", "{ return m.Get(key) }"),
-		cx.Func("FacadeMap", "Get") == nil && cx.Func("FacadeMap", "Set") == nil && cx.Func("FacadeMap", "Delete") == nil,
-		eq("_wrapper", "Size", "{ var sizeV, ok = w.v.(cache.Value) if ok { return sizeV.Size() } return 1 }"),
-		eq("", "NewFacadeLRU", "{ var m = &FacadeLRU{} m.Init(capacity) return m }"),
-		eq("FacadeLRU", "Peek", "{ var w, ok = m.LRUCache.Peek(key) if !ok { return nil, false } return w.(_wrapper).v, true }"),
-		eq("FacadeLRU", "Get", "{ var w, ok = m.LRUCache.Get(key) if !ok { return nil, false } return w.(_wrapper).v, true }"),
-		eq("FacadeLRU", "Set", "{ m.LRUCache.Set(key, _wrapper{v: value}) }"),
-		eq("FacadeLRU", "Delete", "{ m.LRUCache.Delete(key) }"))
-
-	del := "unknown"
-	bd := wk.Body("Worker", "handleDelete")
-	switch {
-	case gofacts.Has(bd, "{ var err = op.deleteFn(c.ctx, op.k)"+chk+"w.ca.Delete(op.k) c.SetR(nil, nil) }"):
-		del = "storeFirst"
-	case gofacts.Has(bd, "{ w.ca.Delete(op.k) var err = op.deleteFn(c.ctx, op.k)"+chk+"c.SetR(nil, nil) }"):
-		del = "cacheFirst"
+	locks := true
+	for _, l := range locked {
+		f := fileOf(repo, l.r.file)
+		if f.LockCovered(f.Func(l.r.recv, l.r.name), l.lock, l.unlock) == "none" {
+			locks = false
+			changed = append(changed, l.r.key()+":lock")
+		}
 	}
+	fs = append(fs, gofacts.LeanBool(locks))
 
-	facts := []bool{loadOK, addPeek, addOK, updOK, uoaOK, utlOK, utrOK, fast, consumer, route, fifo, facade}
-	var fs []string
-	for _, b := range facts {
-		fs = append(fs, gofacts.LeanBool(b))
+	cfgOf := func(file, recv, name string) string {
+		if v, ok := cfgShapes[file+"|"+recv+"."+name][shapeOf(repo, fnRef{file, recv, name})]; ok {
+			return v
+		}
+		return "unknown"
 	}
+	del := cfgOf(fWorker, "Worker", "handleDelete")
+	start := cfgOf(fWorker, "Worker", "Start")
+
 	out := "import Nv.Model.C15\nset_option linter.unusedVariables false\n" +
-		"/-! GENERATED by `c15 extract` from syncx/pipe/mux/{wgroup,worker,gas,q,cacheex}.go — do not edit. -/\n" +
+		"/-! GENERATED by `c15 extract` from syncx/pipe/mux/*.go, cache/{map,lru}.go — do not edit. -/\n" +
 		"namespace Nv.Gen.C15\n" + kernel +
-		"def cfg : Nv.C15.Cfg := ⟨." + del + "⟩\n" +
+		"def cfg : Nv.C15.Cfg := ⟨." + del + ", ." + start + "⟩\n" +
 		"def facts : Nv.C15.Facts := ⟨" + strings.Join(fs, ", ") + "⟩\n" +
 		"end Nv.Gen.C15\n"
 	if err := gofacts.WriteIfChanged(filepath.Join(leanDir, "Nv/Gen/C15.lean"), out); err != nil {
 		fmt.Fprintln(os.Stderr, err)
 		os.Exit(2)
 	}
-	fmt.Printf("extract C15: kernel locHash %s; delOrder=%s facts=%s\n", kmsg, del, strings.Join(fs, ","))
+	fmt.Printf("extract C15: kernel locHash∘Int.HashedInt %s; delOrder=%s startGuard=%s facts=%s changed=%v\n", kmsg, del, start, strings.Join(fs, ","), changed)
 }
 
 // ---------------------------------------------------------------- instrumented store
@@ -334,9 +451,26 @@ type group struct {
 	facades []mux.CacheFacade
 	keys    map[int]bool
 	home    map[int]int // key -> worker whose cache was seen holding it
+	extra   int         // consumer goroutines added by Start() calls after the first
 }
 
+// startAgain: the script called `start`: groups (also the fresh ones of stress / pile) get Start() a second time
+var startAgain bool
+
 func newGroup(lru bool, capN, workers int) *group { return newGroupDeep(lru, capN, workers, 256) }
+
+// start calls Start() again; a second call must not add consumers (goroutines inside runLoop are counted)
+func (gr *group) start() {
+	before := c14q.CountIn("mux.(*Worker).runLoop")
+	gr.g.Start()
+	_ = c14q.Quiesce(20 * time.Second)
+	if after := c14q.CountIn("mux.(*Worker).runLoop"); after > before {
+		gr.extra += after - before
+		gr.st.mu.Lock()
+		gr.st.hit("C15:WorkerGrp.Start:second-call-adds-consumer", fmt.Sprintf("a second Start() started %d more consumer goroutine(s) for %d worker(s)", after-before, len(gr.facades)))
+		gr.st.mu.Unlock()
+	}
+}
 
 func newGroupDeep(lru bool, capN, workers, deep int) *group {
 	gr := &group{st: newStore(), keys: map[int]bool{}, home: map[int]int{}}
@@ -351,10 +485,16 @@ func newGroupDeep(lru bool, capN, workers, deep int) *group {
 		return f
 	}, mux.WithSize(workers), mux.WithDeep(deep))
 	gr.g.Start()
+	if startAgain {
+		gr.start()
+	}
 	return gr
 }
 
 func (gr *group) close() {
+	if gr.extra > 0 {
+		return // extra consumers: Stop would drive the wait group negative inside the library; leave the goroutines behind
+	}
 	gr.g.Stop()
 	ctx, cancel := context.WithTimeout(context.Background(), 5*time.Second)
 	_ = gr.g.WaitStop(ctx)
@@ -592,6 +732,39 @@ func stress(lru bool, capN, workers int, seed, n int, hits map[string]string) {
 		os.Exit(2)
 	}
 	gr.checkCoherent("concurrent-mix")
+	// the DoGet fast path reads the cache from caller goroutines while the worker writes it
+	{
+		var wg2 sync.WaitGroup
+		stop := make(chan struct{})
+		_, _ = gr.g.DoUpsertThenLoad(context.Background(), gr.st.upsert, gr.st.load, mux.Int(1), pair{1, 1})
+		for i := 0; i < 4; i++ {
+			wg2.Add(1)
+			go func() {
+				defer wg2.Done()
+				for {
+					select {
+					case <-stop:
+						return
+					default:
+					}
+					_, _ = gr.g.DoGet(context.Background(), gr.st.load, mux.Int(1))
+				}
+			}()
+		}
+		gr.st.slow = false
+		for j := 0; j < 400*n; j++ {
+			k := j%3 + 1
+			_, _ = gr.g.DoUpsertThenLoad(context.Background(), gr.st.upsert, gr.st.load, mux.Int(k), pair{k, 1})
+			if j%7 == 0 {
+				_, _ = gr.g.DoDelete(context.Background(), gr.st.del, mux.Int(k))
+			}
+		}
+		close(stop)
+		wg2.Wait()
+		gr.barrier(1)
+		gr.keys[1], gr.keys[2], gr.keys[3] = true, true, true
+		gr.checkCoherent("concurrent-mix")
+	}
 	gr.close()
 	for k, v := range gr.st.hits {
 		if _, ok := hits[k]; !ok {
@@ -717,7 +890,53 @@ func pile(lru bool, capN, workers, k, m int, hits map[string]string) {
 	}
 }
 
+var probeKeys = map[string]func() mux.Hashed2Int{
+	"int": func() mux.Hashed2Int { return mux.Int(7) }, "int64": func() mux.Hashed2Int { return mux.Int64(7) },
+	"uint64": func() mux.Hashed2Int { return mux.UInt64(7) }, "intcrc": func() mux.Hashed2Int { return mux.IntCRC(7) },
+	"string": func() mux.Hashed2Int { return mux.String("ab") }, "bytes": func() mux.Hashed2Int { return mux.Bytes("ab") },
+}
+
+// probe: a key of one of the shipped key types must be usable: get (miss → load), get again (hit, no load).
+// Only DoGet is used: its cache access runs in the caller's goroutine, so a panic can be observed.
+func probe(lru bool, capN int, keyType string, hits map[string]string) {
+	if lru && capN == 0 {
+		capN = 1
+	}
+	gr := newGroup(lru, capN, 2)
+	defer gr.close()
+	loads := 0
+	load := func(ctx context.Context, d interface{}) (interface{}, error) { loads++; return 41, nil }
+	res := func() (out string) {
+		defer func() {
+			if p := recover(); p != nil {
+				out = fmt.Sprintf("panic: %v", p)
+			}
+		}()
+		for i := 0; i < 2; i++ {
+			r, err := gr.g.DoGet(context.Background(), load, probeKeys[keyType]())
+			if err != nil || r != 41 {
+				return fmt.Sprintf("DoGet no. %d returned (%v, %v)", i+1, r, err)
+			}
+		}
+		if loads != 1 {
+			return fmt.Sprintf("the store was consulted %d times for two gets of one key", loads)
+		}
+		return ""
+	}()
+	if res != "" {
+		what := fmt.Sprintf("a key of type mux.%s cannot be used: %s", map[string]string{"int": "Int", "int64": "Int64", "uint64": "UInt64", "intcrc": "IntCRC", "string": "String", "bytes": "Bytes"}[keyType], res)
+		key := "C15:mux:key-type-unusable:" + keyType
+		if strings.Contains(res, "unhashable") {
+			key = "C15:mux.Bytes:unhashable-key"
+		}
+		if _, ok := hits[key]; !ok {
+			hits[key] = what
+		}
+	}
+}
+
 func runScript(lines []string) ([]string, map[string]string) {
+	startAgain = false
 	var gr *group
 	var lru bool
 	var capN, workers int
@@ -781,15 +1000,36 @@ func runScript(lines []string) ([]string, map[string]string) {
 			}
 		case len(w) == 2 && w[0] == "peek" && gr != nil:
 			if k, ok := parseKey(w[1]); ok {
-				where, vals := gr.peek(k)
+				_, vals := gr.peek(k)
 				var parts []string
-				for j, i := range where {
-					parts = append(parts, fmt.Sprintf("w%d:%v", i, vals[j]))
+				for _, v := range vals {
+					parts = append(parts, fmt.Sprintf("cached:%v", v))
 				}
 				out = "miss"
 				if len(parts) > 0 {
 					out = strings.Join(parts, ",")
 				}
+			}
+		case len(w) == 2 && w[0] == "where" && gr != nil:
+			if k, ok := parseKey(w[1]); ok {
+				where, _ := gr.peek(k)
+				var parts []string
+				for _, i := range where {
+					parts = append(parts, fmt.Sprintf("w%d", i))
+				}
+				out = "nowhere"
+				if len(parts) > 0 {
+					out = strings.Join(parts, ",")
+				}
+			}
+		case len(w) == 1 && w[0] == "start" && gr != nil:
+			startAgain = true
+			gr.start()
+			out = "ok"
+		case len(w) == 2 && w[0] == "probe" && gr != nil:
+			if probeKeys[w[1]] != nil {
+				probe(lru, capN, w[1], hits)
+				out = "ok"
 			}
 		case len(w) == 2 && w[0] == "store" && gr != nil:
 			if k, ok := parseKey(w[1]); ok {
@@ -808,8 +1048,92 @@ func runScript(lines []string) ([]string, map[string]string) {
 	return outs, hits
 }
 
+type childOut struct {
+	Outs []string          `json:"outs"`
+	Hits map[string]string `json:"hits"`
+}
+
+// runScriptChild: `c15 runscript` — one script (JSON array of lines) on stdin, result JSON on stdout.
+func runScriptChild() {
+	var lines []string
+	if err := json.NewDecoder(os.Stdin).Decode(&lines); err != nil {
+		fmt.Fprintln(os.Stderr, "harness error: runscript:", err)
+		os.Exit(2)
+	}
+	outs, hits := runScript(lines)
+	_ = json.NewEncoder(os.Stdout).Encode(childOut{outs, hits})
+}
+
+// risky: scripts that run real concurrency (a data race is a fatal error of the runtime) or may leave extra consumers
+// behind run in a child process: a crash is an observation, not a harness error
+func risky(lines []string) bool {
+	for _, l := range lines {
+		if l == "start" || strings.HasPrefix(l, "stress ") || strings.HasPrefix(l, "pile ") {
+			return true
+		}
+	}
+	return false
+}
+
+func runInChild(lines []string) ([]string, map[string]string) {
+	b, _ := json.Marshal(lines)
+	cmd := osexec.Command(os.Args[0], "runscript")
+	cmd.Stdin = bytes.NewReader(b)
+	var out, errb bytes.Buffer
+	cmd.Stdout, cmd.Stderr = &out, &errb
+	done := make(chan error, 1)
+	if err := cmd.Start(); err != nil {
+		fmt.Fprintln(os.Stderr, "harness error:", err)
+		os.Exit(2)
+	}
+	go func() { done <- cmd.Wait() }()
+	var err error
+	select {
+	case err = <-done:
+	case <-time.After(120 * time.Second):
+		_ = cmd.Process.Kill()
+		fmt.Fprintln(os.Stderr, "harness error: child did not finish within 120 s:", lines)
+		os.Exit(2)
+	}
+	var res childOut
+	if err == nil && json.Unmarshal(out.Bytes(), &res) == nil && len(res.Outs) == len(lines) {
+		if res.Hits == nil {
+			res.Hits = map[string]string{}
+		}
+		return res.Outs, res.Hits
+	}
+	msg := errb.String()
+	if strings.Contains(msg, "harness error") || !(strings.Contains(msg, "panic:") || strings.Contains(msg, "fatal error:")) {
+		fmt.Fprintln(os.Stderr, msg)
+		fmt.Fprintln(os.Stderr, "harness error: child failed while running", lines)
+		os.Exit(2)
+	}
+	first := ""
+	for _, l := range strings.Split(msg, "\n") {
+		if strings.HasPrefix(l, "panic:") || strings.HasPrefix(l, "fatal error:") {
+			first = l
+			break
+		}
+	}
+	outs := make([]string, len(lines))
+	for i := range outs {
+		outs[i] = "crashed"
+	}
+	key := "C15:mux:process-died"
+	if strings.Contains(first, "concurrent map") {
+		key = "C15:cache:unsynchronised-access"
+	}
+	return outs, map[string]string{key: "the process died while running the script: " + first}
+}
+
 func runCase(c corr.Case) corr.Result {
-	outs, hits := runScript(c.Lines)
+	var outs []string
+	var hits map[string]string
+	if risky(c.Lines) {
+		outs, hits = runInChild(c.Lines)
+	} else {
+		outs, hits = runScript(c.Lines)
+	}
 	res := corr.Result{Outs: outs}
 	var keys []string
 	for k := range hits {
@@ -882,7 +1206,7 @@ func genScript(r *rng.R, tier string) []string {
 			}
 			lines = append(lines, fmt.Sprintf("%s %d %d %s", valueOps[r.Intn(len(valueOps))], k, v, genFaults(r)))
 		case 9:
-			lines = append(lines, fmt.Sprintf("peek %d", k))
+			lines = append(lines, fmt.Sprintf("peek %d", k), fmt.Sprintf("where %d", k))
 		case 10:
 			lines = append(lines, fmt.Sprintf("store %d", k))
 		default:
@@ -896,7 +1220,7 @@ func genScript(r *rng.R, tier string) []string {
 }
 
 func genGarbage(r *rng.R) []string {
-	toks := []string{"new", "get", "add", "upd", "del", "uoa", "utl", "utr", "peek", "store", "stress", "pile", "c", "0c", "cx", "map", "lru", "0", "1", "-1", "-", "01", "2", "x",
+	toks := []string{"start", "where", "probe", "bytes", "new", "get", "add", "upd", "del", "uoa", "utl", "utr", "peek", "store", "stress", "pile", "c", "0c", "cx", "map", "lru", "0", "1", "-1", "-", "01", "2", "x",
 		"99999999999999999999", "1000", "+1", "", "012", "-9223372036854775809"}
 	lines := []string{r.Pick("new map 0 1", "new lru 2 2", "new bogus 1 1", "new lru 65 1", "new map 0 0", "new lru 1 129")}
 	for i := 0; i < 8; i++ {
@@ -956,6 +1280,12 @@ func fixedCases() []corr.Case {
 	add("boundary", "new map 0 2", "uoa 1 5 1", "uoa 1 5 01", "uoa 1 5 -", "uoa 1 2 1", "uoa 1 2 -", "peek 1", "store 1", "utl -1 3 01", "peek -1", "store -1", "utl -1 3 -", "peek -1")
 	add("boundary", "new lru 4 1", "add 1 0 -", "peek 1", "add 1 7 -", "upd 1 0 -", "get 1 -", "add 1 3 -", "utl 2 0 -", "add 2 1 -", "uoa 3 0 -", "add 3 2 -", "peek 3", "store 3")
 	add("boundary", "new map 0 1", "add 1 5 -", "del 1 c", "peek 1", "store 1", "add 2 5 -", "upd 2 1 c", "peek 2", "utl 3 1 cc", "peek 3", "utl 4 1 c1", "peek 4", "store 4")
+	add("witness-start", "new map 0 1", "start", "pile 1 3 -")
+	add("witness-start", "new lru 2 2", "add 1 5 -", "start", "upd 1 1 -", "peek 1", "store 1", "stress 3 6 -")
+	for _, t := range []string{"int", "int64", "uint64", "intcrc", "string", "bytes"} {
+		add("probe", "new map 0 1", "probe "+t)
+		add("probe", "new lru 4 1", "probe "+t)
+	}
 	add("pile", "new map 0 1", "pile 1 5 -", "add 1 1 -")
 	add("pile", "new lru 2 3", "pile -2 4 -")
 	add("stress", "new map 0 2", "stress 1 8 -", "add 1 1 -", "peek 1")
@@ -986,6 +1316,12 @@ func spec() corr.Spec {
 			switch {
 			case i%40 == 11:
 				return corr.Case{Tag: "malformed", Lines: genGarbage(r)}
+			case i%150 == 71:
+				ls := genScript(r, tier)
+				at := r.Range(1, len(ls)-1)
+				ls = append(ls[:at:at], append([]string{"start"}, ls[at:]...)...)
+				ls = append(ls, fmt.Sprintf("pile %d %d -", keyPool[r.Intn(8)], r.Range(2, 6)))
+				return corr.Case{Tag: "script+start", Lines: ls}
 			case i%100 == 33:
 				ls := genScript(r, tier)
 				ls = append(ls, fmt.Sprintf("pile %d %d -", keyPool[r.Intn(8)], r.Range(2, 8)))
@@ -998,7 +1334,8 @@ func spec() corr.Spec {
 			ls := genScript(r, tier)
 			return corr.Case{Tag: "script-" + strings.Fields(ls[0])[1], Lines: ls}
 		},
-		Run: runCase,
+		Run:   runCase,
+		TOnly: func(line string) bool { return strings.HasPrefix(line, "where ") },
 		NonTrivial: func(c corr.Case, r corr.Result) bool {
 			n := 0
 			for _, o := range r.Outs {
